@@ -901,6 +901,12 @@ def main():
         ds = diag_for(run, text, names)
         if rlimit_hit and all(any(('rlimit' in d['message'] or 'Resource limit' in d['message']) for d in diag_for(run, text, [n])) for n in names):
             return undecided('resource-limit-in:' + ','.join(names)[:150], cov)
+        # Only functions that this property reaches through the callee closure failed - none of the functions it lists, none of
+        # their overrides, no lemma, no harness.  The proof of the property is broken (a callee no longer keeps its contract),
+        # but which clause of that contract failed may be one this property does not use: that is decided by the property's
+        # probes - a failing input makes it a violation, none leaves it undecided (the properties that LIST the callee report it).
+        if all(n in auto_set for n in names):
+            return undecided(('only-callees-reached-through-the-call-closure-failed-their-own-contracts:' + ','.join(names))[:300], cov)
         os.makedirs(REPLAYS, exist_ok=True)
         cex = None
         for n in names:
